@@ -46,6 +46,14 @@ impl DO {
             data
         }
     }
+    /// byte offset to the logical sector, or an error if it lies outside the image
+    fn sector_offset(&self,t: usize,s: usize) -> Result<usize,DYNERR> {
+        if t>=self.tracks as usize || s>=self.sectors as usize {
+            error!("track {} sector {} is outside the image",t,s);
+            return Err(Box::new(img::Error::SectorAccess));
+        }
+        Ok(t*self.sectors as usize*SECTOR_SIZE + s*SECTOR_SIZE)
+    }
 }
 
 impl img::DiskImage for DO {
@@ -64,7 +72,7 @@ impl img::DiskImage for DO {
             Block::D13(_) => Err(Box::new(img::Error::ImageTypeMismatch)),
             Block::DO([t,s]) => {
                 let mut ans: Vec<u8> = Vec::new();
-                let offset = t*self.sectors as usize*SECTOR_SIZE + s*SECTOR_SIZE;
+                let offset = self.sector_offset(t,s)?;
                 ans.append(&mut self.data[offset..offset+SECTOR_SIZE].to_vec());
                 Ok(ans) 
             },
@@ -72,7 +80,7 @@ impl img::DiskImage for DO {
                 let mut ans: Vec<u8> = Vec::new();
                 let ts_list = skew::ts_from_prodos_block(block,&self.kind)?;
                 for [t,s] in ts_list {
-                    let offset = t*self.sectors as usize*SECTOR_SIZE + s*SECTOR_SIZE;
+                    let offset = self.sector_offset(t,s)?;
                     ans.append(&mut self.data[offset..offset+SECTOR_SIZE].to_vec());    
                 }
                 Ok(ans) 
@@ -84,7 +92,7 @@ impl img::DiskImage for DO {
                     trace!("track {} lsec {}",ts[0],ts[1]);
                     let track = ts[0];
                     let dsec = skew::CPM_LSEC_TO_DOS_LSEC[ts[1]-1];
-                    let offset = track*self.sectors as usize*SECTOR_SIZE + dsec*SECTOR_SIZE + skew::CPM_LSEC_TO_DOS_OFFSET[ts[1]-1];
+                    let offset = self.sector_offset(track,dsec)? + skew::CPM_LSEC_TO_DOS_OFFSET[ts[1]-1];
                     ans.append(&mut self.data[offset..offset+CPM_RECORD].to_vec());
                 }
                 Ok(ans)
@@ -98,16 +106,19 @@ impl img::DiskImage for DO {
             Block::D13(_) => Err(Box::new(img::Error::ImageTypeMismatch)),
             Block::DO([t,s]) => {
                 let padded = super::quantize_block(dat, SECTOR_SIZE);
-                let offset = t*self.sectors as usize*SECTOR_SIZE + s*SECTOR_SIZE;
+                let offset = self.sector_offset(t,s)?;
                 self.data[offset..offset+SECTOR_SIZE].copy_from_slice(&padded);
                 Ok(())
             },
             Block::PO(block) => {
                 let padded = super::quantize_block(dat, BLOCK_SIZE);
                 let ts_list = skew::ts_from_prodos_block(block,&self.kind)?;
+                for [t,s] in &ts_list {
+                    self.sector_offset(*t,*s)?;
+                }
                 let mut src_offset = 0;
                 for [t,s] in ts_list {
-                    let offset = t*self.sectors as usize*SECTOR_SIZE + s*SECTOR_SIZE;
+                    let offset = self.sector_offset(t,s)?;
                     self.data[offset..offset+SECTOR_SIZE].copy_from_slice(&padded[src_offset..src_offset+SECTOR_SIZE]);
                     src_offset += SECTOR_SIZE;
                 }
@@ -116,12 +127,15 @@ impl img::DiskImage for DO {
             Block::CPM((_block,bsh,_off)) => {
                 let padded = super::quantize_block(dat, CPM_RECORD << bsh);
                 let ts_list = addr.get_lsecs(32);
+                for ts in &ts_list {
+                    self.sector_offset(ts[0],skew::CPM_LSEC_TO_DOS_LSEC[ts[1]-1])?;
+                }
                 let mut src_offset = 0;
                 for ts in ts_list {
                     trace!("track {} lsec {}",ts[0],ts[1]);
                     let track = ts[0];
                     let dsec = skew::CPM_LSEC_TO_DOS_LSEC[ts[1]-1];
-                    let offset = track*self.sectors as usize*SECTOR_SIZE + dsec*SECTOR_SIZE + skew::CPM_LSEC_TO_DOS_OFFSET[ts[1]-1];
+                    let offset = self.sector_offset(track,dsec)? + skew::CPM_LSEC_TO_DOS_OFFSET[ts[1]-1];
                     self.data[offset..offset+CPM_RECORD].copy_from_slice(&padded[src_offset..src_offset+CPM_RECORD]);
                     src_offset += CPM_RECORD;
                 }
